@@ -37,6 +37,11 @@ ExitExc == /\ Len(stack) > 0
            /\ cur' = stack[Len(stack)]
            /\ stack' = SubSeq(stack, 1, Len(stack) - 1)
 
+\* an exception that does not derive from Exception (KeyboardInterrupt, SystemExit, GeneratorExit ...) leaves the block
+ExitBase == /\ Len(stack) > 0
+            /\ cur' = stack[Len(stack)]
+            /\ stack' = SubSeq(stack, 1, Len(stack) - 1)
+
 \* exception raised inside the innermost block and caught outside the two innermost blocks
 ExitExc2 == /\ Len(stack) > 1
             /\ cur' = stack[Len(stack) - 1]
@@ -54,6 +59,7 @@ Next == \/ \E k \in 1..3 : Enter(k)
         \/ ExitOk
         \/ ExitExc
         \/ ExitExc2
+        \/ ExitBase
         \/ \E k \in 1..2 : Set(k)
         \/ SetBad
         \/ Mutate
